@@ -450,9 +450,14 @@ def reconstruct (raw : List SNote) (ts : List TSLine) (ks : List (Rat × Int)) :
   let barlines := bars.map fun (b, q) => (b, clip (roundHalfEven ((divs : Rat) * (q - shiftQ))))
   let lastBar ← bars.getLast?
   let lastBl ← barlines.getLast?
-  -- beats_map / beat_type_map at the last barline (maps indexed by quarters, kind="previous")
-  let tq := tsQuarters ts ((ts.head?.map fun s => s.timeB * 4 / (s.den : Rat)).getD 0)
-  let lastTs := ((tq.filter fun p => decide (p.2 ≤ lastBar.2)).getLast?.map (·.1)).getD (ts.head?.getD default)
+  -- beats_map / beat_type_map at the last barline: interp1d(kind="previous") over the signature positions in
+  -- quarters with the end point (max_time, last signature) appended; scipy sorts the points by position
+  let q0 := (ts.head?.map fun s => s.timeB * 4 / (s.den : Rat)).getD 0
+  let tq := tsQuarters ts q0
+  let lastSig := ts.getLast?.getD default
+  let endQ := ((tq.getLast?.map (·.2)).getD q0) + 4 * (maxTime - lastSig.timeB) / (lastSig.den : Rat)
+  let pts := sortBy (fun a c => decide (a.2 ≤ c.2)) (tq ++ [(lastSig, endQ)])
+  let lastTs := ((pts.filter fun p => decide (p.2 ≤ lastBar.2)).getLast?.map (·.1)).getD (ts.head?.getD default)
   let lastBarEnd := lastBl.2 + roundHalfEven ((divs : Rat) * (lastTs.num : Rat) * 4 / (lastTs.den : Rat))
   -- position of a signature line, possibly before the first note (negative)
   let sigPos (bar : Int) (timeB : Rat) : Int :=
